@@ -86,6 +86,25 @@ func (p *Prog) checkPopulate(r *Report, rule string) bool {
 			}
 		}
 	})
+	// packing never fails because of the VALUE packed: the widths are constants (checked per Hash
+	// method), but a component may lie outside its declared maximum for a valid date — Week.Hash
+	// packs the ISO week-year, which is -1 (a huge uint32) for 0000-01-01 — and still yields a
+	// usable bucket key
+	nPanics := 0
+	for _, b := range f.Blocks {
+		pn, isPanic := b.Instrs[len(b.Instrs)-1].(*ssa.Panic)
+		if !isPanic {
+			continue
+		}
+		nPanics++
+		dep := ""
+		for _, g := range guardsOf(b) {
+			if valueDependsOn(g.Cond, val, 0) {
+				dep = p.instrPos(g.If)
+			}
+		}
+		r.check(dep == "", rule, fmt.Sprintf("populate:any-value#%d", nPanics), p.instrPos(pn), "the failure of populate does not depend on the value packed", "populate fails depending on the value it is given (test at "+dep+"): the bucket of a valid date whose component exceeds the declared maximum (the ISO week-year -1 of 0000-01-01) cannot be computed, report --aggregate week crashes")
+	}
 	ok := okShift && okOr && okWidth && okAdvance
 	if ok {
 		r.ok(rule, "populate", p.pos(f.Pos()), "populate ORs the value in at the current offset and advances by ceil(log2(max))+1 bits")
@@ -93,6 +112,32 @@ func (p *Prog) checkPopulate(r *Report, rule string) bool {
 		r.undecided(rule, "populate", p.pos(f.Pos()), "populate is not the packing helper the rule understands (shift=%v or=%v width=%v advance=%v)", okShift, okOr, okWidth, okAdvance)
 	}
 	return ok
+}
+
+// valueDependsOn: v is computed from target (through arithmetic, conversions, phis).
+func valueDependsOn(v ssa.Value, target ssa.Value, depth int) bool {
+	if depth > 8 {
+		return false
+	}
+	v = strip(v)
+	if v == target {
+		return true
+	}
+	switch x := v.(type) {
+	case *ssa.BinOp:
+		return valueDependsOn(x.X, target, depth+1) || valueDependsOn(x.Y, target, depth+1)
+	case *ssa.UnOp:
+		return valueDependsOn(x.X, target, depth+1)
+	case *ssa.Convert:
+		return valueDependsOn(x.X, target, depth+1)
+	case *ssa.Phi:
+		for _, e := range x.Edges {
+			if valueDependsOn(e, target, depth+1) {
+				return true
+			}
+		}
+	}
+	return false
 }
 
 type hashComp struct {
